@@ -15,11 +15,16 @@ type Context interface {
 type context struct {
 	Config
 	bindings map[string]any
+	depth    int // number of filter applications in progress: each filter evaluates its receiver, the filter before it
 }
+
+// maxFilterDepth bounds the length of a filter chain. The chain is evaluated recursively, and a goroutine
+// stack that grows past the runtime's limit ends the process; no recover can catch that.
+const maxFilterDepth = 100_000
 
 // NewContext makes a new expression evaluation context.
 func NewContext(vars map[string]any, cfg Config) Context {
-	return &context{cfg, vars}
+	return &context{Config: cfg, bindings: vars}
 }
 
 func (ctx *context) Clone() Context {
@@ -27,7 +32,7 @@ func (ctx *context) Clone() Context {
 	for k, v := range ctx.bindings {
 		bindings[k] = v
 	}
-	return &context{ctx.Config, bindings}
+	return &context{Config: ctx.Config, bindings: bindings}
 }
 
 // Get looks up a variable value in the expression context.
